@@ -75,6 +75,24 @@ impl Layout {
         &self.start_to_hole
     }
 
+    #[cfg(anydb_verif)]
+    pub fn verif_pending_holes(&self) -> &BTreeMap<usize, usize> {
+        &self.pending_holes
+    }
+
+    #[cfg(anydb_verif)]
+    pub fn verif_start_to_reserved(&self) -> &BTreeMap<usize, usize> {
+        &self.start_to_reserved
+    }
+
+    #[cfg(anydb_verif)]
+    pub fn verif_hole_to_starts(&self) -> Vec<(usize, Vec<usize>)> {
+        self.hole_to_starts
+            .iter()
+            .map(|(k, v)| (*k, v.to_vec()))
+            .collect()
+    }
+
     pub fn len(&self) -> usize {
         let mut len = 0;
         if let Some((start, reserved)) = self.get_last_reserved() {
